@@ -37,6 +37,7 @@ inductive Err where
   | script    -- the scripted random generator ran out of draws
   | key       -- KeyError (NetworkGrid)
   | index     -- IndexError (Python list indexing outside `-len .. len-1`)
+  | noNode    -- networkx NetworkXError / NodeNotFound (neighbourhood of a node that is not in the graph)
 deriving Repr, DecidableEq
 
 inductive Res where
